@@ -46,8 +46,9 @@ class Dialect:
 
 
 class Gen:
-    def __init__(self, rng, dialect="axllib"):
+    def __init__(self, rng, dialect="axllib", special=None):
         self.rng = rng
+        self.special = special
         self.d = Dialect(dialect)
         self.n = 0
         self.mark = 0
@@ -60,6 +61,7 @@ class Gen:
         self.pending = []	# names whose ill-typed definition was rejected: define them properly later
         self.pending_dom = []
         self.newtypes = ["Float", "DoubleFloat"] if dialect != "libaldor" else []	# types nothing has mentioned yet
+        self.macros = []	# names defined by a top-level macro
         self.bumps = {}		# name -> (variable, increment)
         self.recs = {}		# name -> {a, b}
         self.rectype = None
@@ -219,6 +221,8 @@ class Gen:
         r = self.rng
         self.mark += 1
         m = "@@%d:" % self.mark
+        if self.special == "stale-import" and r.chance(1, 2):
+            return self.add(Form("out", '%s << "%s" << %s() << newline;' % (self.d.out, m, self.twin[2]), marker=m, value=m + "1"))
         choice = r.below(10)
         if choice < 5 or not (self.bigs or self.strs or self.lists):
             e, v = self.expr()
@@ -258,6 +262,7 @@ class Gen:
         k = self.rng.range(0, 40)
         self.add(Form("macro", "%s ==> (%s + %d);" % (nm, cn, k)))
         self.consts[nm] = cv + k
+        self.macros.append(nm)
         return self.forms[-1]
 
     def g_ifblock(self):
@@ -428,10 +433,47 @@ class Gen:
         self.vars[vn] = k
         return self.add(Form("if-taken", "#if %s\n%s := %d + z0;\n#endif" % (a, vn, k)))
 
+    def g_localmacro(self):
+        """a function whose body defines a macro; the macro's name is then defined as an ordinary
+        session variable (a macro local to a body must not leak into the session)"""
+        SI = self.d.SI
+        fn, k = self.fresh("f"), self.fresh("k")
+        mul = self.rng.range(2, 9)
+        self.funs[fn] = (1, lambda a, mul=mul: (a * mul) % M)
+        self.add(Form("fun-localmacro", "%s(n: %s): %s == { macro %s == %d; (n * %s) rem %d }" % (fn, SI, SI, k, mul, k, M)))
+        e, v = self.bexpr()
+        self.vars[k] = v
+        self.add(Form("var", "%s: %s := %s;" % (k, SI, e)))
+        return self.g_out()
+
+    def g_where(self):
+        """a definition whose body is a `where' expression with a local function"""
+        SI = self.d.SI
+        fn, loc = self.fresh("f"), self.fresh("t")
+        cn, cv = self.cname()
+        k = self.rng.range(2, 9)
+        self.funs[fn] = (1, lambda a, k=k, cv=cv: (a * k + cv) % M)
+        return self.add(Form("fun-where", "%s(x: %s): %s == (%s(x) + %s) rem %d where { %s(y: %s): %s == y * %d };" %
+                             (fn, SI, SI, loc, cn, M, loc, SI, SI, k)))
+
+    def g_macro2(self):
+        """the keyword form of a macro definition"""
+        nm = self.fresh("M")
+        cn, cv = self.rng.choice(sorted(self.consts.items()))
+        k = self.rng.range(0, 40)
+        self.add(Form("macro", "macro %s == (%s + %d);" % (nm, cn, k)))
+        self.consts[nm] = cv + k
+        self.macros.append(nm)
+        return self.forms[-1]
+
     # ---- rejected forms (state must be unchanged afterwards) ---------------------------------
     def b_any(self, only=None):
         r = self.rng
         SI = self.d.SI
+        if self.special == "stale-import":
+            # the only rejected kind of these dedicated sessions: an import of a type that an
+            # earlier form has used (qualified), inside a step that is then rejected
+            return self.add(Form("bad:import-after-use", 'import from %s; %s << (z0 + "a") << newline;' % (self.twin[1], self.d.out), good=False))
         opts = []
         if self.consts:
             opts.append("assign-const")
@@ -455,6 +497,9 @@ class Gen:
         opts += ["no-include", "no-library", "endif", "hash-error", "percent", "scan-err", "bad-import2", "bad-partial"]
         if self.vars:
             opts += ["enum-lit", "bad-lhs", "multi-lhs"]
+        if self.macros:
+            opts += ["bad-macro-redef", "bad-macro-redef"]
+        opts += ["bad-with-import"]
         # (a second definition with the signature of an existing function is NOT in the
         # catalogue: the loop answers it with an interactive "Redefine? (y/n)" question that
         # eats the following input - a dialogue, not a rejection, and outside the property)
@@ -513,6 +558,13 @@ class Gen:
         if k == "multi-lhs":
             nm = r.choice(sorted(self.vars))
             return self.add(Form("bad:" + k, "(%s, %s) := 3;" % (nm, nm), good=False))
+        if k == "bad-macro-redef":
+            # a rejected step that first re-defines an existing macro: the old definition must hold afterwards
+            nm = r.choice(self.macros)
+            return self.add(Form("bad:" + k, 'macro %s == %d; %s << (%s + "a") << newline;' % (nm, r.range(500, 900), self.d.out, nm), good=False))
+        if k == "bad-with-import":
+            # a rejected step that imports a type first: the import must not stay in force
+            return self.add(Form("bad:" + k, 'import from Integer; %s << (z0 + "a") << newline;' % self.d.out, good=False))
         if k == "bad-partial":
             # one step holding an acceptable definition of a fresh name and an ill-typed one: the whole
             # step is rejected, the first name must stay undefined (it is defined properly later)
@@ -573,7 +625,7 @@ class Gen:
             return self.add(Form("ctl:timing", "#int timing off", good=None))
         if k == "blank":
             return self.add(Form("ctl:blank", "", good=None))
-        return self.add(Form("ctl:comment", "-- %s" % self.fresh("note"), good=None))
+        return self.add(Form("ctl:comment", "-- %s%s" % (self.fresh("note"), self.rng.choice(["", "", " (unbalanced", " it_'s \"quoted", " } closing"])), good=None))
 
     def generate(self, nforms, bad_share):
         """bad_share in percent (at most ~30); never two control lines in a row."""
@@ -584,6 +636,17 @@ class Gen:
         self.g_const()
         self.g_var()
         self.g_fun()
+        if self.special == "stale-import":
+            SI = self.d.SI
+            da, db, tg = self.fresh("DA"), self.fresh("DB"), self.fresh("tag")
+            self.twin = (da, db, tg)
+            self.add(Form("domain", "%s: with { %s: () -> %s } == add { %s(): %s == 1 }" % (da, tg, SI, tg, SI)))
+            self.add(Form("domain", "%s: with { %s: () -> %s } == add { %s(): %s == 2 }" % (db, tg, SI, tg, SI)))
+            self.add(Form("import", "import from %s;" % da))
+            self.mark += 1
+            self.add(Form("out", '%s << "@@%d:" << %s()$%s << newline;' % (self.d.out, self.mark, tg, db), marker="@@%d:" % self.mark, value="@@%d:2" % self.mark))
+            self.funs[tg + "0"] = None
+            del self.funs[tg + "0"]
         last_ctl = False
         while len(self.forms) < nforms:
             x = r.below(100)
@@ -623,7 +686,8 @@ class Gen:
                                 ("str", 6), ("list", 8), ("loop", 6), ("domain", 3 if self.d.name != "libaldor" else 0),
                                 ("macro", 4), ("ifblock", 5), ("include", 3 if len(self.files) < 3 else 0),
                                 ("out_split", 6), ("fun_split", 4), ("bump", 4), ("exprstep", 6), ("out_bump", 5 if self.bumps else 0),
-                                ("record", 5), ("array", 5), ("closure", 3), ("gener", 4), ("cond", 3)])
+                                ("record", 5), ("array", 5), ("closure", 3), ("gener", 4), ("cond", 3),
+                                ("localmacro", 3), ("where", 3), ("macro2", 3)])
                 getattr(self, "g_" + k)()
         # every session ends with an output so the last state is observed
         self.g_out()
